@@ -91,6 +91,13 @@ package bls
 //@   modifies nothing
 //@   ensures [share-signature] result != nil && val(result) == g1mul(g1hash(digest), val(sk))
 //@
+//@ // the share that signs is the share of the stored data that ThresholdPK reports (every call, also a repeated one)
+//@ func (*TBLS).SetShareData
+//@   props C01
+//@   requires curveOK()
+//@   ensures [share-of-stored-data] result == nil ==> tbls.sd != nil && tbls.sk != nil && val(tbls.sk) == fofbytes(tbls.sd.Sk)
+//@   ensures [untouched-on-error]   result != nil ==> tbls.sk == old(tbls.sk) && tbls.sd == old(tbls.sd)
+//@
 //@ func (*TBLS).Sign
 //@   props C09 C01
 //@   requires curveOK() && tbls.sk != nil
